@@ -2,8 +2,8 @@ SPECIFICATION Spec
 CONSTANTS
   Reqs = {1, 2, 3}
   MaxTag = 5
-  FixRelease = FALSE
-  FixSent = TRUE
+  FixRelease = TRUE
+  FixSent = FALSE
   MaxStray = 1
 INVARIANT NoViolation
 INVARIANT PoolSane
